@@ -51,9 +51,15 @@ func (h HelperContext) BlockWith(hc hctx.Context) (string, error) {
 	// The block is evaluated by an evaluator of its own: a stored block
 	// (contentFor) is rendered again by later executions, possibly by
 	// several at once, and must not borrow the evaluator that defined it.
-	cc := *h.compiler
-	cc.ctx = hc
-	cc.curStmt = nil
+	// Only what never changes while that evaluator runs is taken from it.
+	cc := compiler{
+		ctx:     hc,
+		program: h.compiler.program,
+		// a break / continue in a helper's block nested in this block stops
+		// here; one that leaves this block goes to the evaluator that
+		// called the helper
+		loopControl: &loopSignal{parent: h.compiler.loopControl},
+	}
 
 	i, err := cc.evalBlockStatement(h.block)
 	if err != nil {
@@ -69,9 +75,9 @@ func (h HelperContext) BlockWith(hc hctx.Context) (string, error) {
 	// statement holding the call is done
 	switch ctl := i.(type) {
 	case continueObject:
-		i, h.compiler.signal().ctl = ctl.Value, continueObject{}
+		i, h.compiler.loopControl.ctl = ctl.Value, continueObject{}
 	case breakObject:
-		i, h.compiler.signal().ctl = ctl.Value, breakObject{}
+		i, h.compiler.loopControl.ctl = ctl.Value, breakObject{}
 	}
 
 	bb := &strings.Builder{}
